@@ -1,3 +1,4 @@
 (* GENERATED from /repo/decorator/restorer.go and decorator.go -- do not edit *)
 Definition restorefile_starts_from_init_state : bool := true.
 Definition package_files_decorated_one_at_a_time : bool := true.
+Definition restorefile_finishes_as_the_model : bool := true.
